@@ -20,7 +20,7 @@ ASSUMPTIONS = ['href/xml:base references are plain relative references without e
                'includes inside an unused xi:fallback whose processing would fail, parse=xml targets that are not well-formed together with a fallback, BOMs in text resources: tagged unspecified, only termination asserted',
                'xpointer is unsupported by design: only "an error is reported" is asserted',
                'watchdog timeouts are inconclusive; non-termination is asserted only through the deterministic fetch bound of the counting resolver or a sanitizer-detected stack overflow']
-BUDGET = {'quick': 400, 'thorough': 4000}
+BUDGET = {'quick': 250, 'thorough': 2500}
 WALLCAP = {'quick': 400, 'thorough': 2400}
 
 XINC_FATAL = set(range(276, 287))
@@ -39,6 +39,7 @@ DEFECTS = {
     'C20-D5': 'absolute URI in href is appended to the base directory (XIncludeLocation::prependPath ignores absoluteness)',
     'C20-D6': 'xml:base already present on the document element of an included document is re-interpreted relative to the including element (wrong base URI when directories differ)',
     'C20-D7': 'xml:base on xi:fallback is ignored / replaced by xml:base="" on the fallback children',
+    'C20-D9': 'href "./../x": XIncludeLocation applies removeDotDotSlash without removeDotSlash, "." is removed as if it were a directory name ("d/./../x" becomes "d/x")',
     'C20-D8': 'base + href are concatenated without removing dot segments: "../x" against a base directory that does not exist on disk (virtual xml:base) cannot be opened',
 }
 
@@ -281,6 +282,15 @@ def apply_invalid(files, top, inv, excl):
 
 def strip_known(files, top, excl, shape='acyclic'):
     """remove the constructs that trigger the known defects D1, D6, D7 (counted per construct)"""
+    # D9: "./../" in an href
+    for p, f in files.items():
+        if f['kind'] != 'xml': continue
+        acc = []; all_lists(f['doc']['root'], acc)
+        for ch, k, owner in acc:
+            if k == 'inc':
+                for a in owner[1]:
+                    if a[0] == 'href' and './../' in a[1] and not a[1].startswith('../'):
+                        a[1] = a[1].replace('./../', '../', 1); excl['C20-D9'] = excl.get('C20-D9', 0) + 1
     # D7: xml:base on xi:fallback
     inc_targets_with_rootbase = []
     for p, f in files.items():
@@ -333,7 +343,7 @@ def fix_root_base(files, p, excl):
     r[4] = [['e', '', 'moved-base', [['xml:base', v]], r[4]]]
 
 def build_case(files, top, api, res, url):
-    ctx, items = xm.expand(files, top)
+    ctx, items = xm.expand(files, top, max_fetch=60)
     ev, bases = xm.events_of(items)
     causes = list(ctx.causes); unspec = sorted(set(ctx.unspec))
     if causes: cls = 'error'
@@ -489,7 +499,7 @@ def run_case(case, ex):
     """-> (verdict, detail)  verdict: True | False | None (inconclusive: watchdog)"""
     root = materialise(case)
     top = os.path.join(root, case['top'])
-    req = {'kind': 'xinc', 'top': ('file://' + top) if case['url'] else top, 'api': case['api'], 'feat': 'ns=1;xinclude=1', 'res': str(case['res']), 'bound': '400'}
+    req = {'kind': 'xinc', 'top': ('file://' + top) if case['url'] else top, 'api': case['api'], 'feat': 'ns=1;xinclude=1', 'res': str(case['res']), 'bound': '20000'}
     try:
         resp = ex.request(req, timeout=90)
     except xv.ExecutorDied as e:
@@ -566,6 +576,8 @@ WITNESSES = {
                  {'events': [['SE', '{}a'], ['SE', '{}b'], ['SE', '{}k'], ['EE', '{}k'], ['EE', '{}b'], ['EE', '{}a']], 'bases': ['@/a.xml', '@/d/sub/', '@/d/sub/']}),
     'C20-D7': _w({'a.xml': '<a %s><xi:include href="zz.xml"><xi:fallback xml:base="d/"><f/></xi:fallback></xi:include></a>' % XI},
                  {'events': [['SE', '{}a'], ['SE', '{}f'], ['EE', '{}f'], ['EE', '{}a']], 'bases': ['@/a.xml', '@/d/']}),
+    'C20-D9': _w({'d/a.xml': '<a %s><xi:include href="./../b.xml"/></a>' % XI, 'b.xml': '<b %s><xi:include href="c.xml"/></b>' % XI, 'c.xml': '<c/>'},
+                 {'events': [['SE', '{}a'], ['SE', '{}b'], ['SE', '{}c'], ['EE', '{}c'], ['EE', '{}b'], ['EE', '{}a']], 'bases': ['@/d/a.xml', '@/b.xml', '@/c.xml']}, top='d/a.xml'),
     'C20-D8': _w({'a.xml': '<a %s><m xml:base="virt/"><xi:include href="../b.xml"/></m></a>' % XI, 'b.xml': '<b/>'},
                  {'events': [['SE', '{}a'], ['SE', '{}m'], ['SE', '{}b'], ['EE', '{}b'], ['EE', '{}m'], ['EE', '{}a']], 'bases': ['@/a.xml', '@/virt/', '@/b.xml']}),
 }
